@@ -34,10 +34,10 @@ def plan(tier, seed):
 
 def thresholds(tier):
   t = {"design_backend_pairs": 100, "texts_compared": 300, "module_tables_checked": 100, "standalone_bodies_compared": 200,
-       "parameterisations": 300, "hashed_module_names": 20, "full_names_checked": 150, "instance_statements_checked": 120, "reserved_word_probes": 1500, "reserved_word_probe_controls_translated": 100}
+       "parameterisations": 300, "hashed_module_names": 20, "full_names_checked": 150, "instance_statements_checked": 120, "multi_unit_texts_compared": 100, "reserved_word_probes": 1500, "reserved_word_probe_controls_translated": 100}
   if tier == "thorough":
     t = {k: v * 8 for k, v in t.items()}
-    t["reserved_word_probes"] = 1500; t["reserved_word_probe_controls_translated"] = 100       # same size in both tiers
+    t["multi_unit_texts_compared"] = 100; t["reserved_word_probes"] = 1500; t["reserved_word_probe_controls_translated"] = 100       # same size in both tiers
   return t
 
 
@@ -301,6 +301,113 @@ def run_subtree_probe(sh):
       G.unload(mod)
 
 
+MULTI_SRC = """
+from pymtl3 import *
+from pymtl3.passes.backends.verilog import VerilogPlaceholder, VerilogPlaceholderPass
+class VDecr(VerilogPlaceholder, Component):
+  def construct(s, nbits=8):
+    s.in_ = InPort(nbits); s.out = OutPort(nbits)
+    s.set_metadata(VerilogPlaceholderPass.src_file, VFILE)
+    s.set_metadata(VerilogPlaceholderPass.top_module, 'VDecr')
+    s.set_metadata(VerilogPlaceholderPass.params, {'nbits': nbits})
+class Incr(Component):
+  def construct(s, k=1):
+    s.in_ = InPort(8); s.out = OutPort(8)
+    @update
+    def up_incr():
+      s.out @= s.in_ + k
+class Wrap(Component):
+  def construct(s):
+    s.in_ = InPort(8); s.out = OutPort(8)
+    s.inner = VDecr()
+    s.inner.in_ //= s.in_
+    @update
+    def up_wrap():
+      s.out @= s.inner.out ^ 1
+class MTop(Component):
+  def construct(s, names, kinds):
+    s.in_ = InPort(8); s.outs = [OutPort(8) for _ in names]
+    for i, (n, k) in enumerate(zip(names, kinds)):
+      m = VDecr() if k == 'ph' else Incr(i + 1) if k == 'incr' else Wrap()
+      setattr(s, n, m)
+      m.in_ //= s.in_
+      s.outs[i] //= m.out
+"""
+
+VDECR_V = """module VDecr #( parameter nbits = 8 )
+(
+  input  logic             clk,
+  input  logic             reset,
+  input  logic [nbits-1:0] in_,
+  output logic [nbits-1:0] out
+);
+  assign out = in_ - 1;
+endmodule
+"""
+
+
+def run_multiunit_probe(sh):
+  """SEVERAL sibling sub-trees are translated by ONE application of the translation pass (what the translate-import flow does): a
+  Verilog placeholder, plain components and a component that wraps a placeholder, in every order the sibling names can sort.
+  Each unit's file must be byte-identical to the file the same unit gives when it is the only one enabled (fresh design, fresh
+  pass), its top module name must be its own, and no two units may write the same file"""
+  import itertools
+  from vlib import cosim
+  vfile = os.path.join(os.getcwd(), "VDecr.v")
+  with open(vfile, "w") as f: f.write(VDECR_V)
+  rng = sh.rng("multiunit")
+  # a real file: the placeholder pass walks up from the directory of the class's source file looking for a pymtl.ini
+  import importlib.util
+  pyfile = os.path.join(os.getcwd(), "c13multi_mod.py")
+  with open(pyfile, "w") as f: f.write(MULTI_SRC.replace("VFILE", repr(vfile)))
+  spec = importlib.util.spec_from_file_location("c13multi_mod", pyfile)
+  mod = importlib.util.module_from_spec(spec); sys.modules["c13multi_mod"] = mod; spec.loader.exec_module(mod)
+  try:
+    from pymtl3.passes.backends.verilog import VerilogPlaceholderPass
+    for be in ("sv", "ys"):
+      if be == "sv": from pymtl3.passes.backends.verilog import VerilogTranslationPass as P
+      else: from pymtl3.passes.backends.yosys import YosysTranslationPass as P
+      for kinds in itertools.permutations(("ph", "incr", "wrap")):
+        for extra in ((), ("incr",), ("ph",)):
+          ks = list(kinds) + list(extra)
+          names = [f"u{chr(ord('a') + i)}" for i in range(len(ks))]          # sorted sibling order = position in the list
+          def build(enabled):
+            top = mod.MTop(names, ks); top.elaborate(); top.apply(VerilogPlaceholderPass())
+            units = [getattr(top, n) for n in names]
+            for i in enabled: units[i].set_metadata(P.enable, True)
+            top.apply(P())
+            out = {}
+            for i in enabled:
+              fn = units[i].get_metadata(P.translated_filename)
+              with open(fn) as f: out[i] = (fn, units[i].get_metadata(P.translated_top_module), f.read())
+            return out
+          try:
+            alone = {}
+            for i in range(len(ks)): alone.update(build([i]))
+            together = build(list(range(len(ks))))
+          except Exception as e:
+            sh.inconclusive("multiunit-probe-harness:" + type(e).__name__); continue
+          sh.count("multi_unit_designs"); sh.fp("multiunit", be, tuple(ks))
+          w = {"backend": be, "units_in_sorted_order": ks}
+          for i in range(len(ks)):
+            sh.count("multi_unit_texts_compared")
+            if together[i][1] != alone[i][1]:
+              sh.violation("top-module-name-of-a-unit-depends-on-the-units-translated-before-it", dict(w, unit=i, kind=ks[i], alone=alone[i][1], together=together[i][1]),
+                           case=("multiunit", be, tuple(ks))); break
+            if together[i][2] != alone[i][2]:
+              sh.violation("text-of-a-unit-depends-on-the-units-translated-before-it", dict(w, unit=i, kind=ks[i], file=together[i][0],
+                           alone_modules=re.findall(r"^module (\w+)", alone[i][2], re.M), together_modules=re.findall(r"^module (\w+)", together[i][2], re.M)),
+                           case=("multiunit", be, tuple(ks))); break
+          files = {}
+          for i in range(len(ks)):
+            # two units of different hardware must not share a file (the later would overwrite the earlier)
+            if together[i][0] in files and alone[files[together[i][0]]][2] != alone[i][2]:
+              sh.violation("two-units-of-different-hardware-write-the-same-file", dict(w, units=[files[together[i][0]], i], file=together[i][0]), case=("multiunit-file", be, tuple(ks))); break
+            files.setdefault(together[i][0], i)
+  finally:
+    sys.modules.pop("c13multi_mod", None)
+
+
 def run_keyword_probe(sh):
   """identifiers are legal: a signal / block / loop variable named like a reserved word of IEEE 1800-2017 (list written down from
   Annex B in vlib/svkeywords.py, not taken from pymtl3's table) is either refused by the translator or renamed - it never reaches
@@ -348,6 +455,7 @@ NEWER_KEYWORDS = set("accept_on checker endchecker eventually global implements 
 
 def run_shard(sh):
   if sh.params["part"] == 0: run_subtree_probe(sh)
+  if sh.params["part"] == 1: run_multiunit_probe(sh)
   run_keyword_probe(sh)
   rng = sh.rng("c13")
   items = []
